@@ -45,8 +45,8 @@ Lemma instr_cond_if bt thn els : instr_cond (If bt thn els) = seq_cond thn && se
 Proof. reflexivity. Qed.
 End Cond.
 
-Definition w0 (ops : list opcode) : list (opcode * N) := map (fun o => (o, 0%N)) ops.
-Lemma w0_app a b : w0 (a ++ b) = w0 a ++ w0 b. Proof. apply map_app. Qed.
+Notation w0 := (map (fun o : opcode => (o, 0%N))).
+Lemma w0_app (a b : list opcode) : w0 (a ++ b) = w0 a ++ w0 b. Proof. apply map_app. Qed.
 
 Lemma vrun_app c : forall a b s, vrun c s (a ++ b) = match vrun c s a with Some s' => vrun c s' b | None => None end.
 Proof. induction a as [|o a IH]; intros b s; cbn [app vrun]; [reflexivity|]. destruct (vstep c s o); auto. Qed.
@@ -313,28 +313,28 @@ Lemma complete_all :
 Proof.
   apply typing_mutind.
   - (* basic *)
-    intros C b t1 t2 HB HCd s F K HC -> HR. cbn [flatten_instr w0 map vrun]. unfold vstep. cbn [fst snd].
+    intros C b t1 t2 HB HCd s F K HC -> HR. cbn [flatten_instr map vrun]. unfold vstep. cbn [fst snd].
     destruct (vstep_basic_complete b t1 t2 s F K HB HCd HC HR) as (s' & F' & -> & HC' & HS & HO).
     exists s', F'. auto.
   - (* block *)
     intros C bt body rest HB IH HCd s F K HC -> HR. rewrite instr_cond_block in HCd.
     cbn [flatten_instr]. change (OBlock bt :: flat_map flatten_instr body ++ [OEnd]) with ([OBlock bt] ++ flatten body ++ [OEnd]).
-    rewrite !w0_app, !vrun_app. cbn [w0 map vrun vstep fst].
+    rewrite !w0_app, vrun_app. cbn [map vrun vstep fst]. rewrite ?vrun_app.
     assert (HC1 : vs_ctrls (push_ctrl false bt bt s) = new_frame false bt bt :: F :: K) by (cbn; now rewrite HC).
     destruct (IH HCd _ _ _ HC1 eq_refl (reach_new _ _ _)) as (s2 & F0' & -> & HC2 & HS2 & HO2).
     pose proof HS2 as (HI & _ & HE). cbn in HI, HE.
     destruct (end_fwd s2 F0' F K HC2) as (s3 & E3 & HC3); [rewrite HE; exact HO2|rewrite HI; discriminate|].
-    rewrite E3. exists s3, (with_opds F (kn (bt_list (fr_end F0')) ++ opds F)). split; [reflexivity|]. split; [exact HC3|].
+    cbn [map vrun]. rewrite E3. exists s3, (with_opds F (kn (bt_list (fr_end F0')) ++ opds F)). split; [reflexivity|]. split; [exact HC3|].
     split; [apply shape_wo|]. cbn [is_term]. destruct HR as [HU HO]. split; [exact HU|]. cbn. rewrite HE, HO, map_app. reflexivity.
   - (* loop *)
     intros C bt body rest HB IH HCd s F K HC -> HR. rewrite instr_cond_loop in HCd.
     cbn [flatten_instr]. change (OLoop bt :: flat_map flatten_instr body ++ [OEnd]) with ([OLoop bt] ++ flatten body ++ [OEnd]).
-    rewrite !w0_app, !vrun_app. cbn [w0 map vrun vstep fst].
+    rewrite !w0_app, vrun_app. cbn [map vrun vstep fst]. rewrite ?vrun_app.
     assert (HC1 : vs_ctrls (push_ctrl false None bt s) = new_frame false None bt :: F :: K) by (cbn; now rewrite HC).
     destruct (IH HCd _ _ _ HC1 eq_refl (reach_new _ _ _)) as (s2 & F0' & -> & HC2 & HS2 & HO2).
     pose proof HS2 as (HI & _ & HE). cbn in HI, HE.
     destruct (end_fwd s2 F0' F K HC2) as (s3 & E3 & HC3); [rewrite HE; exact HO2|rewrite HI; discriminate|].
-    rewrite E3. exists s3, (with_opds F (kn (bt_list (fr_end F0')) ++ opds F)). split; [reflexivity|]. split; [exact HC3|].
+    cbn [map vrun]. rewrite E3. exists s3, (with_opds F (kn (bt_list (fr_end F0')) ++ opds F)). split; [reflexivity|]. split; [exact HC3|].
     split; [apply shape_wo|]. cbn [is_term]. destruct HR as [HU HO]. split; [exact HU|]. cbn. rewrite HE, HO, map_app. reflexivity.
   - (* if *)
     intros C bt thn els rest HT IHT HEl IHE HCd s F K HC -> HR. rewrite instr_cond_if in HCd.
@@ -346,23 +346,23 @@ Proof.
     pose proof HS2 as (HI & _ & HE). cbn in HI, HE.
     cbn [flatten_instr]. destruct els as [|e0 els'].
     + (* no else: the typing of the empty else branch forces an empty result *)
-      inversion HEl; subst. assert (bt = None) by (destruct bt; [discriminate|reflexivity]). subst bt.
+      assert (bt = None) as -> by (inversion HEl; destruct bt; [discriminate|reflexivity]).
       change (OIf None :: flat_map flatten_instr thn ++ [OEnd]) with ([OIf None] ++ flatten thn ++ [OEnd]).
-      rewrite !w0_app, !vrun_app. cbn [w0 map vrun vstep fst].
-      rewrite (pop_known_fwd _ _ _ _ _ HC HO). cbn [obind]. rewrite ET.
+      rewrite !w0_app, vrun_app. cbn [map vrun vstep fst]. rewrite ?vrun_app.
+      rewrite (pop_known_fwd _ _ _ _ _ HC HO). cbn [obind]. rewrite ?vrun_app, ET.
       destruct (end_fwd s2 F0' _ K HC2) as (s3 & E3 & HC3); [rewrite HE; exact HO2|intros _; exact HE|].
-      rewrite E3. eexists s3, _. split; [reflexivity|]. split; [exact HC3|].
+      cbn [map vrun]. rewrite E3. eexists s3, _. split; [reflexivity|]. split; [exact HC3|].
       split; [repeat split|]. cbn [is_term]. split; [exact HU|]. cbn. rewrite HE. reflexivity.
     + change (OIf bt :: flat_map flatten_instr thn ++ OElse :: flat_map flatten_instr (e0 :: els') ++ [OEnd])
         with ([OIf bt] ++ flatten thn ++ [OElse] ++ flatten (e0 :: els') ++ [OEnd]).
-      rewrite !w0_app, !vrun_app. cbn [w0 map vrun vstep fst].
-      rewrite (pop_known_fwd _ _ _ _ _ HC HO). cbn [obind]. rewrite ET.
+      rewrite !w0_app, vrun_app. cbn [map vrun vstep fst]. rewrite ?vrun_app.
+      rewrite (pop_known_fwd _ _ _ _ _ HC HO). cbn [obind]. rewrite ?vrun_app, ET.
       destruct (else_fwd s2 F0' _ HC2) as (s3 & E3 & HC3); [rewrite HE; exact HO2|exact HI|].
-      rewrite E3. rewrite HE in HC3.
+      cbn [map vrun]. rewrite ?vrun_app. cbn [map vrun]. rewrite E3. rewrite ?vrun_app. rewrite HE in HC3.
       destruct (IHE CdE _ _ _ HC3 eq_refl (reach_new _ _ _)) as (s4 & F1' & -> & HC4 & HS4 & HO4).
       pose proof HS4 as (HI4 & _ & HE4). cbn in HI4, HE4.
       destruct (end_fwd s4 F1' _ K HC4) as (s5 & E5 & HC5); [rewrite HE4; exact HO4|rewrite HI4; discriminate|].
-      rewrite E5. eexists s5, _. split; [reflexivity|]. split; [exact HC5|].
+      cbn [map vrun]. rewrite E5. eexists s5, _. split; [reflexivity|]. split; [exact HC5|].
       split; [repeat split|]. cbn [is_term]. split; [exact HU|]. cbn. rewrite HE4, map_app. reflexivity.
   - (* nil *)
     intros C ts _ s F K HC -> HR. exists s, F. cbn. repeat split; auto. now left.
@@ -372,7 +372,7 @@ Proof.
     change (flatten (i :: is)) with (flatten_instr i ++ flatten is). rewrite w0_app, vrun_app.
     destruct (IHI CdI _ _ _ HC eq_refl HR) as (s1 & F1 & -> & HC1 & HS1 & HO1).
     destruct is as [|j is'].
-    + cbn [flatten flat_map w0 map vrun]. exists s1, F1. split; [reflexivity|]. split; [exact HC1|]. split; [exact HS1|].
+    + cbn [flatten flat_map map vrun]. exists s1, F1. split; [reflexivity|]. split; [exact HC1|]. split; [exact HS1|].
       inversion HS; subst. destruct (is_term i); [now right|now left].
     + apply negb_true_iff in CdT. rewrite CdT in HO1.
       destruct (IHS CdS _ _ _ HC1) as (s2 & F2 & E2 & HC2 & HS2 & HO2);
@@ -388,7 +388,7 @@ Proof.
   intros HB HCd. unfold validate_func, flatten_body. rewrite w0_app, vrun_app.
   assert (HC : vs_ctrls (vinit c) = [new_frame false (vc_return c) (vc_return c)]) by reflexivity.
   destruct (proj2 complete_all _ _ _ _ HB HCd _ _ _ HC eq_refl (reach_new _ _ _)) as (s1 & F1 & -> & HC1 & HS1 & HO1).
-  pose proof HS1 as (HI & _ & HE). cbn in HI, HE. cbn [w0 map vrun].
+  pose proof HS1 as (HI & _ & HE). cbn in HI, HE. cbn [map vrun].
   destruct (end_top s1 F1 HC1) as (s2 & -> & HC2); [rewrite HE; exact HO1|exact HI|].
   rewrite HC2. eauto.
 Qed.
